@@ -177,7 +177,7 @@ package datatypes
 //@ pred dueTo(s model.StateOfDatatype) = s == model.StateOfDatatype_DUE_TO_CREATE || s == model.StateOfDatatype_DUE_TO_SUBSCRIBE || s == model.StateOfDatatype_DUE_TO_SUBSCRIBE_CREATE
 //@ func (*WiredDatatype).updateStateOfDatatype
 //@   mode wrap
-//@   props C13 C05 C07
+//@   props C13 C05 C07 C18
 //@   requires wiredWF(its) && its.opID != nil && its.wire != nil && ppp != nil
 //@   ensures[returns-transition]   result0 == old(its.state) && result1 == its.state
 //@   ensures[becomes-subscribed]   old(dueTo(its.state)) ==> its.state == model.StateOfDatatype_SUBSCRIBED && its.id == ppp.DUID
@@ -286,7 +286,7 @@ package datatypes
 // and makes the result the new commit point: afterwards nothing is left to replay.
 //@ func (*TransactionDatatype).Rollback
 //@   mode wrap
-//@   props C09 C03 C01 C15
+//@   props C09 C03 C01 C15 C19
 //@   requires txWF(its) && its.txCtx != nil
 //@   loop 0 invariant[self] its.txCtx == old(its.txCtx) && its.isLocked == old(its.isLocked) && its.mutex == old(its.mutex) && its.BaseDatatype == old(its.BaseDatatype) && baseWF(its.BaseDatatype)
 //@   loop 0 invariant[ops] opsIDed(its.rollbackOps) && sameSlice(its.rollbackOps, old(its.rollbackOps))
@@ -302,7 +302,7 @@ package datatypes
 // from a local call or from a remote delivery, and is handed on exactly when it is local.
 //@ func (*TransactionDatatype).EndTransaction
 //@   mode wrap
-//@   props C09 C03 C15 C05
+//@   props C09 C03 C15 C05 C19
 //@   requires txWF(its) && (txCtx != nil ==> allocated(txCtx)) && rollbackSound()
 //@   requires[owner-is-locked] txCtx == its.txCtx ==> its.isLocked
 //@   requires[marker-first] txCtx == its.txCtx && its.success && withOp ==> len(its.txCtx.opBuffer) >= 1 && its.txCtx.opBuffer[0] != nil
